@@ -28,7 +28,12 @@ type Plat struct {
 	// Split: the device's answer to the escalation command (password prompt, or error line + prompt,
 	// or the new prompt) reaches the channel in two reads, cut after Split bytes; -1: not cut.
 	Split int    `json:"split"`
-	How   string `json:"how"` // whole | after-colon | any
+	How   string `json:"how"` // whole | after-colon | any | atomic
+	// Notice: a line that the definition's (loose) escalate-prompt matches, printed in ONE segment with
+	// the prompt that follows when the device grants / refuses without asking (cumulus: the sudo
+	// "unable to resolve host" line). Completion pattern and expected response then show in the same
+	// read; the completion pattern wins.
+	Notice string `json:"notice,omitempty"`
 }
 
 type platInfo struct {
@@ -102,6 +107,10 @@ func GenPlat(r *rand.Rand) Desc {
 	default:
 		p.Split, p.How = 1+r.Intn(len(answer)-1), "any"
 	}
+	if p.Platform == "cumulus_linux" && !strings.HasPrefix(p.Outcome, "ask") && r.Intn(2) == 0 {
+		p.Notice = "sudo: unable to resolve host leaf01: Name or service not known"
+		p.Split, p.How = -1, "atomic"
+	}
 	if r.Intn(2) == 0 {
 		d.Seg = devsim.Seg{Mode: "whole", Seed: d.Seg.Seed, Delay: d.Seg.Delay} // the cut is the only boundary inside the answer
 	}
@@ -173,6 +182,10 @@ func (d *platDev) Input(c *devsim.Conn, b []byte) {
 // emitCut prints s, cut into two reads at the case's split position when s is the answer to the
 // escalation command.
 func (d *platDev) emitCut(c *devsim.Conn, s string) {
+	if d.p.Notice != "" {
+		c.EmitProtected([]byte(strings.ReplaceAll(d.p.Notice+"\n"+s, "\n", d.nl)))
+		return
+	}
 	if k := d.p.Split; k > 0 && k < len(s) {
 		c.Emit([]byte(strings.ReplaceAll(s[:k], "\n", d.nl)))
 		c.Mark()
@@ -286,6 +299,9 @@ func RunPlat(d Desc) mon.Result {
 	r.conn.Do(func() { lines = append(lines, dev.lines...) })
 	k := p.Platform + ":" + p.Outcome
 	r.obs["platform_escalations"]++
+	if p.Notice != "" {
+		r.obs["platform_notice_matching_escalate_prompt"]++
+	}
 	if dev.cut {
 		r.obs["platform_answer_cut_in_two_reads"]++
 		if p.How == "after-colon" {
